@@ -76,6 +76,68 @@ End Pins.
 Check (reachable_nodup : forall pl ops, NoDup (final pl [] ops)).
 Check (history_devirt : forall pl d ops, run pl d ops = run pl d (map devirt ops)).
 
+(* 7. the widened alphabet: views of views, provided methods through views, bulk mutations, bag stores *)
+Check (hop_matching_is_filter : forall d h sm pm om,
+  hop_matching d h sm pm om = filter (triple_matches N sm pm om) (hop_triples d h)).
+Check (gad_hop_collapse : forall l : list tt,
+  hop_triples (gad_quads N l) HUnion = l
+  /\ hop_triples (gad_quads N l) (HGraph None) = l
+  /\ (forall g, hop_triples (gad_quads N l) (HGraph (Some g)) = [])
+  /\ (forall m, hop_triples (gad_quads N l) (HPUnion m) = if gdesc_g m None then l else [])).
+Check (gobs_contains_member : forall pl d h t,
+  gobs_eval pl d h (GOContains t) = OFlag (gr_contains N N.eqb (hop_triples d h) t)).
+Check (dobs_contains_member : forall pl d q,
+  dobs_eval pl d (DOContains q) = OFlag (ds_contains N N.eqb d q)).
+Check (translate_ok : forall pl d o,
+  xstep SSet pl d (translate o) = (fst (step pl d o), XO (snd (step pl d o)))).
+Check (hrun_old_is_run : forall pl d ops, hrun SSet pl d (map HOld ops) = map XO (run pl d ops)).
+Check (x_insert_lands : forall sk d gs t,
+  match lands gs with
+  | Some g => x_insert sk d gs t = (fst (s_insert sk d (mkQ t g)), XO (OFlag (snd (s_insert sk d (mkQ t g)))))
+              /\ x_remove sk d gs t = (fst (s_remove sk d (mkQ t g)), XO (OFlag (snd (s_remove sk d (mkQ t g)))))
+  | None => x_insert sk d gs t = (d, XOnlyDefault) /\ x_remove sk d gs t = (d, XO (OFlag false))
+  end).
+Check (lands_spec : forall g rest, lands (g :: rest) = if forallb is_default rest then Some g else None).
+Check (x_insert_set_direct : forall d g t,
+  x_insert SSet d [g] t = (fst (dg_insert N N.eqb d g t), XO (OFlag (snd (dg_insert N N.eqb d g t))))
+  /\ x_remove SSet d [g] t = (fst (dg_remove N N.eqb d g t), XO (OFlag (snd (dg_remove N N.eqb d g t))))).
+Check (x_insert_all_is_fold : forall sk g l d n,
+  x_insert_all sk d (map (fun t => ([g], t)) l) n =
+  let r := fold_left (fun acc t => let '(d', b) := s_insert sk (fst acc) (mkQ t g) in
+                                   (d', if b then snd acc + 1 else snd acc)) l (d, n) in
+  (fst r, XO (OCount (snd r)))).
+Check (x_remove_all_is_fold : forall sk g l d n,
+  x_remove_all sk d (map (fun t => ([g], t)) l) n =
+  let r := fold_left (fun acc t => let '(d', b) := s_remove sk (fst acc) (mkQ t g) in
+                                   (d', if b then snd acc + 1 else snd acc)) l (d, n) in
+  (fst r, XO (OCount (snd r)))).
+Check (x_insert_all_stops : forall sk d gs t rest n,
+  lands gs = None -> x_insert_all sk d ((gs, t) :: rest) n = (d, XOnlyDefault)).
+Check (bag_insert_view : forall d g t g',
+  hop_triples (fst (s_insert SBagAll d (mkQ t g))) (HGraph g') =
+  hop_triples d (HGraph g') ++ (if gname_eqb N N.eqb g g' then [t] else [])
+  /\ hop_triples (fst (s_insert SBagAll d (mkQ t g))) HUnion = hop_triples d HUnion ++ [t]
+  /\ snd (s_insert SBagAll d (mkQ t g)) = true).
+Check (bag_remove_view : forall d g t g',
+  hop_triples (fst (s_remove SBagAll d (mkQ t g))) (HGraph g') =
+  (if gname_eqb N N.eqb g g' then filter (fun x => negb (triple_eqb N N.eqb t x)) (hop_triples d (HGraph g'))
+   else hop_triples d (HGraph g'))
+  /\ snd (s_remove SBagAll d (mkQ t g)) = true).
+Check (bagone_remove_view : forall d g t g',
+  hop_triples (fst (s_remove SBagOne d (mkQ t g))) (HGraph g') =
+  (if gname_eqb N N.eqb g g' then fst (remove_first_t t (hop_triples d (HGraph g'))) else hop_triples d (HGraph g'))
+  /\ snd (s_remove SBagOne d (mkQ t g)) = gr_contains N N.eqb (hop_triples d (HGraph g)) t).
+Check (xd_remove_matching_effect : forall d sm pm om gm,
+  let d' := fst (xd_remove_matching SSet d sm pm om gm) in
+  (forall q, In q d' <-> In q d /\ (triple_matches N sm pm om (qt q) && gm (qg q)) = false)
+  /\ (NoDup d -> NoDup d')).
+Check (xd_retain_matching_effect : forall d sm pm om gm,
+  let d' := xd_retain_matching SSet d sm pm om gm in
+  (forall q, In q d' <-> In q d /\ (triple_matches N sm pm om (qt q) && gm (qg q)) = true)
+  /\ (NoDup d -> NoDup d')).
+Check (hreachable_nodup : forall pl init ops,
+  NoDup (hfinal pl (fold_left (fun d q => fst (s_insert SSet d q)) init []) ops)).
+
 Print Assumptions union_content.
 Print Assumptions union_query_is_filter.
 Print Assumptions punion_content.
@@ -96,3 +158,21 @@ Print Assumptions gad_insert_effect.
 Print Assumptions gad_remove_effect.
 Print Assumptions reachable_nodup.
 Print Assumptions history_devirt.
+Print Assumptions hop_matching_is_filter.
+Print Assumptions gad_hop_collapse.
+Print Assumptions gobs_contains_member.
+Print Assumptions dobs_contains_member.
+Print Assumptions translate_ok.
+Print Assumptions hrun_old_is_run.
+Print Assumptions x_insert_lands.
+Print Assumptions lands_spec.
+Print Assumptions x_insert_set_direct.
+Print Assumptions x_insert_all_is_fold.
+Print Assumptions x_remove_all_is_fold.
+Print Assumptions x_insert_all_stops.
+Print Assumptions bag_insert_view.
+Print Assumptions bag_remove_view.
+Print Assumptions bagone_remove_view.
+Print Assumptions xd_remove_matching_effect.
+Print Assumptions xd_retain_matching_effect.
+Print Assumptions hreachable_nodup.
